@@ -225,7 +225,15 @@ func solve(script string, timeoutSec int, which []string) SolverResult {
 			cmd.Stderr = &out
 			cmd.Run()
 			o := out.String()
-			first := strings.TrimSpace(strings.SplitN(o, "\n", 2)[0])
+			first := ""
+			for _, ln := range strings.Split(o, "\n") {
+				ln = strings.TrimSpace(ln)
+				if ln == "" || strings.HasPrefix(ln, "WARNING") || strings.HasPrefix(ln, "(warning") {
+					continue // z3 prints pattern warnings before the verdict
+				}
+				first = ln
+				break
+			}
 			st := "unknown"
 			switch {
 			case first == "unsat":
